@@ -42,6 +42,8 @@ var SugarSrc = []string{
 	`{|@,@value| (1,2)}`, `{|@value,@| (2,1)}`, `{|@,@value| (1,2),(2,3)}`,
 	`{|@,@byte| (0,1)}`, `{|@,@byte| (0,1),(1,2)}`,
 	`true`, `{()}`, `false`, `{}`,
+	// keyed relations whose value attribute is not a sugar attribute (incl. names that sort before "@")
+	`{(@: 1, x: 2)}`, `{|@, x| (1, 2), (2, 3)}`, `{|@, x| (1, 2), (1, 3)}`, `{|$v, @| (10, 3)}`, `{(@: 3, $v: 10), (@: 4, $v: 11)}`, `{(v: 10)} <&> {(@: 3)}`,
 }
 
 // State is one reachable representation.
